@@ -576,37 +576,39 @@ def rule_declaration_lookup(ctx):
 
 
 # every way the interpreter (eval.rs, link.rs) can stop with a panic, and the checker-side guarantee that excludes it.
-# key = <function>:<kind>:<message>; value = (count, guarantee)
+# key = <function>:<enclosing match arms, outermost first>:<kind>  (structural: rewording a message does not change a key)
+# value = (count, guarantee)
 STUCK = {
-    "Computation::step:expect:pattern match failed in function": (1, "binder-coverage: fn binders are irrefutable"),
-    "Computation::step:expect:pattern match failed in return": (1, "binder-coverage: do binders are irrefutable"),
-    "Computation::step:expect:pattern match failed in let": (1, "binder-coverage: let binders are irrefutable"),
-    "Computation::step:expect:pattern match failed in fix": (1, "binder-coverage + shape-assumptions: the fix binder is validated and typed `Thk _`"),
-    "Value::step:expect:pattern match failed in value let": (1, "binder-coverage (Value::Let)"),
-    "Value::step:expect:pattern match failed in pure function": (1, "binder-coverage (Value::VAbs)"),
-    "Computation::step:panic:no matching arm": (1, "coverage-validator: an accepted match is exhaustive (C04)"),
-    "Computation::step:expect:no matching arm": (1, "coverage-validator: an accepted comatch has an arm per destructor (C04)"),
-    "Computation::step:panic:Hole in computation": (1, "typed-hole (known finding F7)"),
-    "Value::step:panic:Hole in value": (1, "typed-hole (known finding F7)"),
-    "Value::step:expect:variable does not exist": (1, "scoping: every variable of a resolved program has its binder on the path (C07)"),
-    "Computation::step:panic:App not at stacktop": (1, "typing (progress): a function is only run under an application frame; NOT decided"),
-    "Computation::step:panic:Kont not at stacktop": (1, "typing (progress): ret only under a do frame; NOT decided"),
-    "Computation::step:panic:Force on non-thunk": (1, "typing (progress): `!` only at Thk types; NOT decided"),
-    "Computation::step:panic:Comatch on non-Dtor": (1, "typing (progress): comatch only under a destructor frame; NOT decided"),
-    "Computation::step:panic:Prim on non-Dtor": (1, "typing (progress) + C06 role tables"),
-    "Value::step:panic:Value application on non-closure": (1, "typing (progress); NOT decided"),
-    "Value::step:assert:type-checked product projection must have a matching field": (1, "typing of projections (F11 repaired)"),
-    "Assign::step:unreachable:internal error: entered unreachable code": (2, "host values are opaque: never matched by a pattern (typing)"),
-    "into_product_fields:unreachable:internal error: entered unreachable code: only products have product fields": (1, "typing of product patterns"),
-    "from_product_fields:unwrap:": (1, "dominated by the length test of the same vector"),
-    "from_product_fields:expect:non-empty product fields": (1, "product arity >= 2 by construction of ConsN"),
-    "ValueId::link:mir-assert:overflow:Add": (1, "position + 1 of a component of a source product: bounded by the product's arity"),
-    "ProductArity::of:mir-assert:overflow:Add": (1, "number of components of a source product"),
-    "VPatId::link:unwrap:": (1, "link: the erased pattern list is non-empty by the typed arity"),
-    "BuiltinPackageLinker::link:expect:a checked product plan is non-empty": (1, "BuiltinPackagePlan is validated (gate)"),
-    "CompuId::link:index:ArenaSparse": (1, "every id reachable from a checked root is in the arena (stripped-arena, C10)"),
-    "VPatId::link:index:ArenaSparse": (1, "as above"),
-    "ValueId::link:index:ArenaSparse": (1, "as above"),
+    "Computation::step:VAbs/Some:expect": (1, "binder-coverage: fn binders are irrefutable (`pattern match failed in function`)"),
+    "Computation::step:Ret/Some:expect": (1, "binder-coverage: do binders are irrefutable (`pattern match failed in return`)"),
+    "Computation::step:Let:expect": (1, "binder-coverage: let binders are irrefutable"),
+    "Computation::step:Fix:expect": (1, "binder-coverage + shape-assumptions: the fix binder is validated and typed `Thk _`"),
+    "Value::step:Let:expect": (1, "binder-coverage (Value::Let)"),
+    "Value::step:VApp:expect": (1, "binder-coverage (Value::VAbs: `pattern match failed in pure function`)"),
+    "Computation::step:Match:panic": (1, "coverage-validator: an accepted match is exhaustive (C04) (`no matching arm`)"),
+    "Computation::step:CoMatch:expect": (1, "coverage-validator: an accepted comatch has an arm per destructor (C04)"),
+    "Computation::step:Hole:panic": (1, "typed-hole (known finding F7)"),
+    "Value::step:Hole:panic": (1, "typed-hole (known finding F7)"),
+    "Value::step:Var:expect": (1, "scoping: every variable of a resolved program has its binder on the path (C07)"),
+    "Computation::step:VAbs/_:panic": (1, "typing (progress): a function is only run under an application frame; NOT decided"),
+    "Computation::step:Ret/_:panic": (1, "typing (progress): ret only under a do frame; NOT decided"),
+    "Computation::step:Force/else:panic": (1, "typing (progress): `!` only at Thk types; NOT decided"),
+    "Computation::step:CoMatch/else:panic": (1, "typing (progress): comatch only under a destructor frame; NOT decided"),
+    "Computation::step:Prim/else:panic": (1, "typing (progress) + C06 role tables"),
+    "Value::step:VApp/else:panic": (1, "typing (progress): value application of a closure only; NOT decided"),
+    "Value::step:Proj:assert": (1, "typing of projections (F11 repaired)"),
+    "Assign::step:Ctor/Closure:unreachable": (1, "host values are opaque: never matched by a pattern (typing)"),
+    "Assign::step:VCons/Closure:unreachable": (1, "as above"),
+    "into_product_fields:else:unreachable": (1, "typing of product patterns: only products have product fields"),
+    "from_product_fields:lit:1:unwrap": (1, "dominated by the length test of the same vector"),
+    "from_product_fields:_:expect": (1, "product arity >= 2 by construction of ConsN"),
+    "VPatId::link:Alias:unwrap": (1, "link: the erased pattern list is non-empty by the typed arity"),
+    "BuiltinPackageLinker::link:Product:expect": (1, "BuiltinPackagePlan is validated (gate)"),
+    "CompuId::link::index:ArenaSparse": (1, "every id reachable from a checked root is in the arena (stripped-arena, C10)"),
+    "VPatId::link::index:ArenaSparse": (1, "as above"),
+    "ValueId::link::index:ArenaSparse": (1, "as above"),
+    "ValueId::link::mir-assert:overflow:Add": (1, "position + 1 of a component of a source product: bounded by the product's arity"),
+    "ProductArity::of::mir-assert:overflow:Add": (1, "number of components of a source product"),
 }
 
 
@@ -647,21 +649,36 @@ def rule_stuck_states(ctx):
             h = facts.hir(fn)
             if h:
                 n_fns += 1
+                par = _parents(h["body"])
+
+                def arms_of(x, par=par):
+                    out = []
+                    cur = x
+                    while id(cur) in par:
+                        p = par[id(cur)]
+                        if H.kind(p) == "Match" and not p.get("src"):
+                            for a in p["arms"]:
+                                if a is cur or a["body"] is cur or a.get("guard") is cur:
+                                    out.append(re.sub(r"[({].*", "", A.pat_shape(a["pat"]).split("|")[0]))
+                        if H.kind(p) == "Let" and p.get("els") is cur:
+                            out.append("else")
+                        cur = p
+                    return "/".join(reversed(out))
                 for x in H.walk(h["body"]):
                     k = H.kind(x)
                     key = None
                     if k == "MethodCall" and x["name"] in ("expect", "unwrap") and re.search(r"(Option|Result)<", x.get("recv_ty") or ""):
                         msg = (lits(x["args"][0]) or [""])[0] if x["args"] else ""
-                        key = "%s:%s:%s" % (owner, x["name"], msg or "")
+                        key = "%s:%s:%s" % (owner, arms_of(x), x["name"])
                     elif k == "Call" and (H.callee(x) or "").startswith(("core::panicking::", "std::rt::begin_panic")):
                         ex = x.get("expn") or []
                         kind = "unreachable" if "unreachable" in ex else "assert" if "assert" in ex else "panic"
                         msg = ([l for a in x["args"] for l in lits(a)] or [""])[0]
-                        key = "%s:%s:%s" % (owner, kind, msg or "")
+                        key = "%s:%s:%s" % (owner, arms_of(x), kind)
                     elif k == "Index":
                         base = x.get("base") if isinstance(x.get("base"), dict) else x.get("e") if isinstance(x.get("e"), dict) else {}
                         t = (base.get("ty") or "?")
-                        key = "%s:index:%s" % (owner, t.split("<")[0].split("::")[-1].replace("&", ""))
+                        key = "%s:%s:index:%s" % (owner, arms_of(x), t.split("<")[0].split("::")[-1].replace("&", ""))
                     if key:
                         seen[key] = seen.get(key, 0) + 1
                         locs.setdefault(key, [bd["loc"][0], x.get("ln")])
@@ -671,7 +688,7 @@ def rule_stuck_states(ctx):
             for bb in range(b.n):
                 t = b.term(bb)
                 if t["k"] == "assert" and not b.is_cleanup(bb) and t.get("msg") != "other":  # "other" = compiler-inserted pointer checks
-                    key = "%s:mir-assert:%s" % (owner, t.get("msg"))
+                    key = "%s::mir-assert:%s" % (owner, t.get("msg"))
                     seen[key] = seen.get(key, 0) + 1
                     locs.setdefault(key, [bd["loc"][0], t.get("ln")])
     for key, cnt in sorted(seen.items()):
